@@ -7,15 +7,15 @@ C16  1. TLC explores the handshake part of spec/Net.tla: every variant of the ca
         per variant with the model's verdict.
      2. drv net-hs executes the cases against the REAL comm.Listen + comm.ServiceConnections over loopback TLS: raw TLS client =
         attacker, real comm.SocketRemoteParties = honest peers (one frame before on a long-lived connection, one after on a fresh
-        connection), one frame after every handshake.  Child processes: a case may kill the process; cases in flight at a crash are
+        connection), one frame after every handshake.  Child processes: should a case kill the process, the cases in flight are
         re-run one per process.
      3. TLC evaluates the monitors of spec/NetTrace.tla on the observed outcomes (messages that appeared on the channel returned by
         ServiceConnections with their From / Domain, process death) and compares them with the model (difference = drift).
 
 C17  1. TLC explores the framing part of spec/Net.tla (sending goroutines -> bounded queue -> writer -> stream -> reader; peers down,
         late, stalled, garbling) for every interleaving of small programs, checks FIFO / exactly-once / oversize / fault isolation /
-        no-panic (modulo the named enqueue-timeout deviation), the frame encoding laws for every type and boundary size, and prints
-        the scenario shapes (SCEN) and the shapes in which the model reaches the panic (PANIC).
+        copies given up only towards unresponsive peers, the frame encoding laws for every type and boundary size, and prints the
+        scenario shapes (SCEN) and the shapes in which the model reaches the enqueue timeout (DROP).
      2. drv net-fr runs the shapes on real parties over loopback TLS with boundary payload sizes, every legal type/topic combination
         and several sending goroutines, recording Send calls / returns and InMsg arrivals under one global sequence.
      3. TLC validates the recorded traces against spec/NetTrace.tla whose monitors are the invariants above.
@@ -150,8 +150,8 @@ def tlc_hs(wd, tr, rng, forced=None):
     if r.violation:
         raise vlib.CheckError("Net model (handshake part) violates %s at design level:\n%s" % (r.violation, "".join(r.error_trace[-2:])))
     if not forced:
-        # falsifiability of the invariants: without the named deviations the model of the current code must violate them
-        for inv in ("StrictAttributed", "StrictNoCrash"):
+        # falsifiability of the invariant: without the named deviation the model of the current code must violate it
+        for inv in ("StrictAttributed",):
             n2 = write_mc(wd, "MC_hs_" + inv, base_consts(Part="hs", CatMode="near"), [inv])
             r2 = vlib.run_tlc(n2, n2 + ".cfg", ["Net.tla"], workdir=wd, timeout=600, deadlock=True, heap="8g")
             if r2.violation != inv:
@@ -331,20 +331,9 @@ def run_c16(pid, only_cases=None):
         cases = [c for c in cases if hs_key(c) in wanted]
         if not cases:
             raise vlib.CheckError("the replayed handshake variant is not in the catalogue")
-    # variants for which the model predicts a crash run one per process from the start (scheduling only; the verdict never uses it)
-    pred = [c for c in cases if c["model"] == "crash"]
-    cap = 48 if tr == "quick" else 100000
-    if len(pred) > cap:
-        rng.shuffle(pred)
-        keep = {}
-        for c in pred:                      # at least one per identity x registered-ness, then seeded
-            keep.setdefault((c["ident"], c["enc"] == "ok"), c)
-        chosen = list(keep.values())
-        chosen += [c for c in pred if c not in chosen][:cap - len(chosen)]
-        drop = set(c["id"] for c in pred) - set(c["id"] for c in chosen)
-        cases = [c for c in cases if c["id"] not in drop]
-        pred = chosen
-    singles = set(c["id"] for c in pred)
+    # no variant is expected to end the process any more; should one do so, the cases in flight are re-run one per process
+    # (hs_execute) and the death is reported by the NoCrash monitor
+    singles = set()
     drv = vlib.build_harness()
     material = make_material(drv, wd)
     outcomes = hs_execute(drv, material, cases, wd, singles)
@@ -368,15 +357,16 @@ def run_c16(pid, only_cases=None):
         configs=[dict(part="hs", catalogue=consts["CatMode"], seeded_sample=len(consts["Sample"]), distinct_states=r.distinct,
                       states_generated=r.generated, depth=r.depth, wall_s=round(r.wall, 1))],
         variants_enumerated=enumerated, variants_executed=len(cases), executed_one_per_process=len(singles),
-        model_verdicts={k: sum(1 for c in cases if c["model"] == k) for k in ("accept", "reject", "crash")},
+        model_verdicts={k: sum(1 for c in cases if c["model"] == k) for k in ("accept", "reject")},
         model_reject_reasons={k: sum(1 for c in cases if c["why"] == k) for k in sorted(set(c["why"] for c in cases))},
-        deviations_in_model={k: sum(1 for c in cases if c["dev"] == k) for k in ("keytype", "concat")},
+        deviations_in_model={k: sum(1 for c in cases if c["dev"] == k) for k in ("concat",)},
         real_attributions=stats["attributed"], real_crashes=stats["crashed"], variants_with_proved_identity=stats["allowed"],
         drift_cases=stats["drift"], drift_kinds=stats["drift_kinds"], selftest_corrupted_outcomes_detected=nself,
         monitors=HS_MONITORS, known_findings_seen=sorted(verdict.known_seen),
         rule="variants = TLC-enumerated catalogue (quick: every single-field alteration of every valid handshake + replays from the other "
-             "connection + model deviations + every encoding alteration of the valid handshakes + 4000 seeded variants of the product; "
-             "thorough: the whole product + every encoding alteration of every near-valid variant); each executed over loopback TLS against "
+             "connection + model deviations + every encoding alteration and 16 byte-offset truncations of the valid handshakes + 4000 seeded "
+             "variants of the product; thorough: the whole product + every encoding alteration of every near-valid variant + truncation "
+             "at 64 evenly spread byte offsets (length prefix consistent / stream cut) of every valid handshake); each executed over loopback TLS against "
              "comm.Listen + comm.ServiceConnections with an honest frame before (long-lived connection) and after (fresh connection)",
     ), [
         "TLS 1.3 itself is trusted: the exporter value is unique per connection and unknown to third parties",
@@ -395,7 +385,7 @@ def run_c16(pid, only_cases=None):
 # ======================================================================================================================
 
 PROGS_QUICK = [
-    # goroutine 1 floods receiver 3 (panics in the model when 3 is down / stalled), goroutine 2 only talks to receiver 2
+    # goroutine 1 floods receiver 3 (runs into the enqueue timeout in the model when 3 is down / stalled), goroutine 2 only talks to receiver 2
     ((Rec(id=1, to=(2, 3)), Rec(id=2, to=(3,)), Rec(id=3, to=(3,)), Rec(id=4, to=(3, 2))),
      (Rec(id=5, to=(2,)), Rec(id=6, to=(2,)))),
     # three goroutines, crossing destinations
@@ -422,8 +412,8 @@ def tlc_fr(wd, tr):
     shapes, panics = {}, set()
     for (qc, wc) in ([(1, 1)] if tr == "quick" else [(1, 1), (2, 1)]):
         consts = base_consts(Part="fr", Progs=list(progs), Faults=FAULTS, QCap=qc, WCap=wc)
-        name = write_mc(wd, "MC_fr%d%d" % (qc, wc), consts, ["PrefixFIFO", "NoSpurious", "OversizeRefused", "DeliveredAtQuiescence", "FaultIsolated", "NoPanic"])
-        r = vlib.run_tlc(name, name + ".cfg", ["Net.tla"], workdir=wd, timeout=2400, keep_prints=["SCEN", "PANIC", "VEC"], deadlock=True, heap="12g",
+        name = write_mc(wd, "MC_fr%d%d" % (qc, wc), consts, ["PrefixFIFO", "NoSpurious", "OversizeRefused", "DeliveredAtQuiescence", "FaultIsolated", "DropsOnlyToUnresponsive"])
+        r = vlib.run_tlc(name, name + ".cfg", ["Net.tla"], workdir=wd, timeout=2400, keep_prints=["SCEN", "DROP", "VEC"], deadlock=True, heap="12g",
                          coverage=(tr == "thorough" and (qc, wc) == (1, 1)))
         if r.violation:
             raise vlib.CheckError("Net model (framing part) violates %s at design level:\n%s" % (r.violation, "".join(r.error_trace[-2:])))
@@ -437,10 +427,8 @@ def tlc_fr(wd, tr):
             else:
                 panics.add(k)
         res.append((consts, r))
-    n2 = write_mc(wd, "MC_fr_strict", base_consts(Part="fr", Progs=list(progs), Faults=FAULTS, QCap=1, WCap=1), ["StrictNoPanic"])
-    r2 = vlib.run_tlc(n2, n2 + ".cfg", ["Net.tla"], workdir=wd, timeout=600, deadlock=True, heap="8g")
-    if r2.violation != "StrictNoPanic":
-        raise vlib.CheckError("Net model: StrictNoPanic is not falsified although the model contains the enqueue-timeout deviation")
+    if not panics:
+        raise vlib.CheckError("Net model: no scenario shape reaches the enqueue timeout (the flood scenarios would be vacuous)")
     if not shapes:
         raise vlib.CheckError("Net model printed no scenario shapes")
     return res, [shapes[k] for k in sorted(shapes)], panics
@@ -469,7 +457,7 @@ class ScenarioGen:
 
     def add(self, **kw):
         s = dict(id=len(self.scenarios), n=4, dom=self.rng.choice(["d1", "e", "d2"]), progs=[], raw=[], slow_us=0, late_ms=0, timeout_ms=60000,
-                 grace_ms=120, flood=False, expect_panic=False, shape=None, layout=[])
+                 grace_ms=120, flood=False, expect_drop=False, shape=None, layout=[])
         s.update(kw)
         self.scenarios.append(s)
         return s
@@ -514,16 +502,20 @@ class ScenarioGen:
         return s
 
     def flood(self, shape, g):
-        """the model reaches the enqueue-timeout panic in this shape: goroutine g of node 1 keeps sending to the victim until the
-        queue (1000) and the socket buffers are full; meanwhile another goroutine and node 4 keep talking to the healthy peers"""
+        """the model reaches the enqueue timeout in this shape: goroutine g of node 1 keeps sending to the victim until the queue
+        (1000) and the socket buffers are full and a call has waited for the timeout (the copy is given up, reported, nobody
+        panics); its next message goes to the victim AND a healthy peer: the healthy one must still get it. Meanwhile another
+        goroutine and the other parties keep talking to the healthy peers"""
         v = shape["victim"]
         h = 5 - v
         size = 1 << 20 if shape["fault"] == "stalled" else 64
-        progs = [dict(node=1, flood=1100, msgs=[dict(ty=2, topic=True, size=size, to=[v], pause_us=0)]),
-                 dict(node=1, flood=0, msgs=[self.msg(1, [h, 4], pause=900000) for _ in range(14)]),
-                 dict(node=4, flood=0, msgs=[self.msg(0, [h, 1], pause=700000) for _ in range(18)]),
-                 dict(node=h, flood=0, msgs=[self.msg(0, [1, 4], pause=1100000) for _ in range(10)])]
-        return self.add(fault=shape["fault"], victim=v, progs=progs, shape=shape, flood=True, expect_panic=True, timeout_ms=90000)
+        progs = [dict(node=1, flood=1100, msgs=[dict(ty=2, topic=True, size=size, to=[v], pause_us=0),
+                                                dict(ty=2, topic=True, size=300, to=[v, h], pause_us=0),
+                                                dict(ty=1, topic=True, size=17, to=[h, 4], pause_us=0)]),
+                 dict(node=1, flood=0, msgs=[self.msg(1, [h, 4], pause=900000) for _ in range(22)]),
+                 dict(node=4, flood=0, msgs=[self.msg(0, [h, 1], pause=700000) for _ in range(28)]),
+                 dict(node=h, flood=0, msgs=[self.msg(0, [1, 4], pause=1100000) for _ in range(18)])]
+        return self.add(fault=shape["fault"], victim=v, progs=progs, shape=shape, flood=True, expect_drop=True, timeout_ms=120000)
 
 
 def fr_scenarios(shapes, panics, rng, tr):
@@ -605,13 +597,15 @@ def fr_lines(s, evs):
         k = e["e"]
         if k == "reset":
             out.append(dict(e="reset", t=s["id"], fault=s["fault"], victim=s["victim"], dom=s["dom"], recv=recv, layout=s["layout"],
-                            expect_panic=s["expect_panic"], flood=s["flood"]))
+                            expect_drop=s["expect_drop"], flood=s["flood"]))
         elif k == "call":
             out.append(dict(e="call", g=e["g"], k=e["k"], **{"from": e["from"]}, to=e["to"], m=e["m"], raw=bool(e.get("raw", False))))
         elif k == "ret":
             out.append(dict(e="ret", g=e["g"], k=e["k"], panic=e.get("panic", "")))
         elif k == "in":
             out.append(dict(e="in", at=e["at"], **{"from": e["from"]}, dom=DOM_ABSTRACT.get(e["dom"], "??"), m=e["m"], rec=bool(e.get("rec", False))))
+        elif k == "drop":
+            out.append(dict(e="drop", **{"from": e["from"]}, to=e["to"]))
         elif k == "crash":
             out.append(dict(e="crash", what=e["what"]))
         elif k == "end":
@@ -711,7 +705,7 @@ def run_c17(pid, only=None):
     for consts, r in mres:
         log("net fr model QCap=%d WCap=%d: %r" % (consts["QCap"], consts["WCap"], r))
     scs = fr_scenarios(shapes, panics, rng, tr) if only is None else only
-    log("net fr: %d scenario shapes from the model (%d reach the enqueue-timeout panic), %d concrete scenarios" % (len(shapes), len(panics), len(scs)))
+    log("net fr: %d scenario shapes from the model (%d reach the enqueue timeout), %d concrete scenarios" % (len(shapes), len(panics), len(scs)))
     drv = vlib.build_harness()
     material = make_material(drv, wd)
     traces = fr_execute(drv, material, scs, wd)
@@ -746,10 +740,11 @@ def run_c17(pid, only=None):
             log("scenario %d (%s): deliveries missing at the deadline in the batch run, complete when run alone (load): not a violation" % (s["id"], s["fault"]))
     byid = {s["id"]: s for s in scs}
     drift_kinds = {}
-    delivered = panics_seen = 0
+    delivered = panics_seen = drops_seen = 0
     for sid, e in ends.items():
         delivered += e["delivered"]
         panics_seen += e["panics"]
+        drops_seen += e["drops"]
         if e["drift"]:
             drift_kinds[e["drift"]] = drift_kinds.get(e["drift"], 0) + 1
     for sid, vs in sorted(viols.items()):
@@ -779,18 +774,20 @@ def run_c17(pid, only=None):
                       states_generated=r.generated, depth=r.depth, wall_s=round(r.wall, 1)) for c, r in mres],
         coverage_zero_actions=sorted(set(a for _, r in mres for a in r.coverage_zero if a not in HS_ACTIONS)),
         frame_length_vectors_checked=len(VECTORS),
-        scenario_shapes=len(shapes), shapes_reaching_panic_in_model=len(panics), scenarios=len(scs),
+        scenario_shapes=len(shapes), shapes_reaching_enqueue_timeout_in_model=len(panics), scenarios=len(scs),
         scenarios_by_fault={f: sum(1 for s in scs if s["fault"] == f) for f in sorted(set(s["fault"] for s in scs))},
         flood_scenarios=sum(1 for s in scs if s["flood"]), payload_sizes=sizes, type_topic_combinations=[list(c) for c in combos],
-        real_events=nlines, real_deliveries=delivered, real_panics=panics_seen, retried_alone=retried, skipped_inconclusive=skipped,
+        real_events=nlines, real_deliveries=delivered, real_panics=panics_seen, real_enqueue_timeouts_reported=drops_seen, retried_alone=retried, skipped_inconclusive=skipped,
         drift_kinds=drift_kinds, selftest_corrupted_traces_detected=nself, monitors=FR_MONITORS, known_findings_seen=sorted(verdict.known_seen),
         rule="scenario = model shape (fault x victim x goroutine programs, enumerated by TLC) concretised with rotating boundary payload sizes "
              "and every legal type/topic combination, 4 real parties over loopback TLS, 2-3 sending goroutines on node 1 plus concurrent "
-             "traffic of the other parties; flood scenarios drive the queue of a down / stalled peer to its capacity",
+             "traffic of the other parties; flood scenarios drive the queue of a down / stalled peer to its capacity and through the enqueue timeout, "
+             "then send one message to the unresponsive AND a healthy peer",
     ), [
         "TLS / TCP deliver a connection's bytes in order and unmodified",
         "a peer that is down or stalled for the whole run receives nothing; exactly-once is demanded for peers that are up (or come up late)",
-        "messages of a Send call that panicked are not counted as accepted for sending",
+        "a copy that Send reports as timed out (full queue for 10 s) was not accepted for sending; it is identified by the report through "
+        "the injected Logger and exempted from Delivered; the other copies of that Send call are demanded",
         "20 MiB payloads in the thorough tier only; the 10 s enqueue timeout is reached by the flood scenarios",
         "a delivery missing at the deadline (60 s) is re-checked once with the scenario run alone before it counts",
     ], violations=len(verdict.violations))
